@@ -1418,6 +1418,21 @@ def unroll(fn: ast.FunctionDef, repo: Optional[Repo] = None, ci: Optional[ClassI
                             env.pop(k, None)
                         out.extend(block(pieces, env))
                         continue
+            # --- yield from (A if c else B)  is  if c: yield from A / else: yield from B;   yield from [a, b]  is  yield a; yield b
+            if isinstance(st, ast.Expr) and isinstance(st.value, ast.YieldFrom) and isinstance(st.value.value, ast.IfExp):
+                ie = st.value.value
+                a_ = ast.copy_location(ast.Expr(value=ast.YieldFrom(value=ie.body)), st)
+                b_ = ast.copy_location(ast.Expr(value=ast.YieldFrom(value=ie.orelse)), st)
+                new_if = ast.copy_location(ast.If(test=ie.test, body=[a_], orelse=[b_]), st)
+                ast.fix_missing_locations(new_if)
+                out.extend(block([new_if], env))
+                continue
+            if isinstance(st, ast.Expr) and isinstance(st.value, ast.YieldFrom) and isinstance(st.value.value, (ast.List, ast.Tuple)) \
+                    and not any(isinstance(x, ast.Starred) for x in st.value.value.elts) and len(st.value.value.elts) <= MAX_UNROLL:
+                for x in st.value.value.elts:
+                    y_ = ast.copy_location(ast.Expr(value=ast.Yield(value=x)), st)
+                    out.append(ast.fix_missing_locations(y_))
+                continue
             # --- yield from chain(...)/chain.from_iterable(L) and `for x in L: yield from x`
             if isinstance(st, ast.Expr) and isinstance(st.value, ast.YieldFrom) and isinstance(st.value.value, ast.Call):
                 c = st.value.value
